@@ -211,8 +211,135 @@ Proof.
   - now apply bytes_eqb_eq.
   - induction l as [|a r IHr]; [reflexivity|]. now rewrite IH, IHr.
 Qed.
-Theorem spec_model i : spec i (model i) = true.
+Lemma spec_model_ref i : spec_ref i (model_ref i) = true.
 Proof.
-  unfold spec, model. destruct (dec_case i) as [en ops]. unfold sx_nth. cbn [sx_l nth].
+  unfold spec_ref, model_ref. destruct (dec_case i) as [en ops]. unfold sx_nth. cbn [sx_l nth].
   rewrite lines_thm, sx_eqb_refl. cbn [andb]. unfold returns. rewrite returns_thm. apply sx_eqb_refl.
 Qed.
+
+(* ---------------- the accumulator versions run by the driver ----------------
+   [model] and [spec] (tail-recursive, linear time: needed to judge streams whose
+   lines are far longer than any buffer threshold) are the reference functions. *)
+Lemma rev_tr_eq {A} (l : list A) : rev_append l [] = rev l.
+Proof. now rewrite rev_append_rev, app_nil_r. Qed.
+Lemma app_tr_eq {A} (a b : list A) : app_tr a b = a ++ b.
+Proof. unfold app_tr. now rewrite rev_append_rev, rev_tr_eq, rev_involutive. Qed.
+Lemma len_z_eq l : forall acc, len_z acc l = (acc + Z.of_nat (length l))%Z.
+Proof. induction l as [|b r IH]; intros acc; cbn [len_z length]; [lia|]. rewrite IH. lia. Qed.
+Lemma len_n_eq l : forall acc, len_n acc l = acc + length l.
+Proof. induction l as [|b r IH]; intros acc; cbn [len_n length]; [lia|]. rewrite IH. lia. Qed.
+
+Lemma split_nl_eq bs : forall racc,
+  split_nl racc bs = match index_nl bs with
+                     | None => None
+                     | Some idx => Some (rev racc ++ firstn idx bs, skipn (S idx) bs)
+                     end.
+Proof.
+  induction bs as [|b r IH]; intros racc; cbn [split_nl index_nl]; [reflexivity|].
+  destruct (Byte.eqb b nl).
+  - cbn [firstn skipn]. now rewrite rev_tr_eq, app_nil_r.
+  - rewrite IH. destruct (index_nl r) as [k|]; cbn [option_map]; [|reflexivity].
+    cbn [rev firstn skipn]. now rewrite <- app_assoc.
+Qed.
+
+Lemma write_line_f_eq en bf line : write_line_f en bf line = write_line en bf line.
+Proof.
+  unfold write_line_f, write_line. rewrite split_nl_eq. cbn [rev app].
+  destruct (index_nl line) as [idx|]; rewrite ?app_tr_eq; reflexivity.
+Qed.
+
+Lemma write_loop_f_eq fuel : forall en bf bs racc,
+  write_loop_f fuel en bf bs racc =
+    (fst (write_loop fuel en bf bs), rev racc ++ snd (write_loop fuel en bf bs)).
+Proof.
+  induction fuel as [|f IH]; intros en bf bs racc; cbn [write_loop_f write_loop].
+  - cbn [fst snd]. now rewrite rev_tr_eq, app_nil_r.
+  - destruct bs as [|b0 r0].
+    + cbn [fst snd]. now rewrite rev_tr_eq, app_nil_r.
+    + rewrite write_line_f_eq. destruct (write_line en bf (b0 :: r0)) as [[bf1 ms] rem].
+      rewrite IH. destruct (write_loop f en bf1 rem) as [bf2 ms']. cbn [fst snd].
+      now rewrite rev_append_rev, rev_app_distr, rev_involutive, <- app_assoc.
+Qed.
+
+Definition opt_z (n : option nat) : option Z := option_map Z.of_nat n.
+Lemma step_f_eq s o :
+  step_f s o = (fst (fst (step s o)), snd (fst (step s o)), opt_z (snd (step s o))).
+Proof.
+  destruct o as [c| |b]; cbn [step_f step].
+  - destruct (enabled s).
+    + rewrite write_loop_f_eq, len_n_eq, len_z_eq. cbn [rev app plus].
+      destruct (write_loop (S (length c)) true (buff s) c) as [bf ms]. reflexivity.
+    + rewrite len_z_eq. reflexivity.
+  - destruct (flush (enabled s) false (buff s)) as [bf ms]. reflexivity.
+  - reflexivity.
+Qed.
+
+Lemma run_f_eq ops : forall s,
+  run_f s ops = (fst (fst (run s ops)), snd (fst (run s ops)), map Z.of_nat (snd (run s ops))).
+Proof.
+  induction ops as [|o r IH]; intros s; cbn [run_f run]; [reflexivity|].
+  rewrite step_f_eq. destruct (step s o) as [[s1 ms] n]. cbn [fst snd].
+  rewrite IH. destruct (run s1 r) as [[s2 ms'] ns]. cbn [fst snd].
+  rewrite app_tr_eq. destruct n; reflexivity.
+Qed.
+
+Lemma map_SZ_of_nat ns : map SZ (map Z.of_nat ns) = map of_nat ns.
+Proof. now rewrite map_map. Qed.
+
+Theorem model_fast_thm i : model i = model_ref i.
+Proof.
+  unfold model, model_ref, messages, returns. destruct (dec_case i) as [en ops].
+  rewrite run_f_eq. destruct (run (init en) ops) as [[s ms] ns]. cbn [fst snd].
+  now rewrite map_SZ_of_nat.
+Qed.
+
+Lemma is_nil_rev {A} (l : list A) : is_nil (rev l) = is_nil l.
+Proof. destruct l as [|a r]; [reflexivity|]. cbn [rev is_nil]. destruct (rev r); reflexivity. Qed.
+
+Lemma scan_bytes_eq c : forall rcur acc rest,
+  rev (snd (scan_bytes rcur acc c)) ++ lines true (rev (fst (scan_bytes rcur acc c))) rest =
+    rev acc ++ lines true (rev rcur) (map B c ++ rest).
+Proof.
+  induction c as [|b r IH]; intros rcur acc rest; cbn [scan_bytes map app lines fst snd]; [reflexivity|].
+  destruct (Byte.eqb b nl).
+  - rewrite IH. cbn [rev]. now rewrite rev_tr_eq, <- app_assoc.
+  - rewrite IH. reflexivity.
+Qed.
+
+Lemma scan_ops_eq ops : forall en rcur acc,
+  scan_ops en rcur acc ops = rev acc ++ lines en (rev rcur) (flatten ops).
+Proof.
+  induction ops as [|o r IH]; intros en rcur acc.
+  - cbn. now rewrite rev_tr_eq, app_nil_r.
+  - unfold flatten. cbn [map concat]. fold (flatten r). destruct o as [c| |b]; cbn [scan_ops flat1].
+    + destruct en.
+      * pose proof (scan_bytes_eq c rcur acc (flatten r)) as H.
+        destruct (scan_bytes rcur acc c) as [rc a]. cbn [fst snd] in H. now rewrite IH.
+      * rewrite IH. now rewrite lines_disabled_bytes.
+    + cbn [app lines]. destruct en.
+      * rewrite is_nil_rev. destruct (is_nil rcur); rewrite IH; cbn [rev]; [reflexivity|].
+        now rewrite rev_tr_eq, <- app_assoc.
+      * now rewrite IH.
+    + cbn [app lines]. now rewrite IH.
+Qed.
+
+Lemma write_lens_z_eq ops : write_lens_z ops = map Z.of_nat (write_lens ops).
+Proof.
+  unfold write_lens_z, write_lens. induction ops as [|o r IH]; [reflexivity|].
+  cbn [map concat]. rewrite map_app, IH. destruct o; cbn [map app]; [|reflexivity|reflexivity].
+  now rewrite len_z_eq.
+Qed.
+
+Theorem spec_fast_thm i o : spec i o = spec_ref i o.
+Proof.
+  unfold spec, spec_ref. destruct (dec_case i) as [en ops].
+  now rewrite scan_ops_eq, write_lens_z_eq, map_SZ_of_nat.
+Qed.
+
+Lemma spec_is_lines i o : spec i o =
+  (sx_eqb (sx_nth o 0) (of_blist (lines (fst (dec_case i)) [] (flatten (snd (dec_case i))))) &&
+   sx_eqb (sx_nth o 1) (SL (map of_nat (write_lens (snd (dec_case i)))))).
+Proof. rewrite spec_fast_thm. unfold spec_ref. destruct (dec_case i) as [en ops]. reflexivity. Qed.
+
+Theorem spec_model i : spec i (model i) = true.
+Proof. rewrite spec_fast_thm, model_fast_thm. apply spec_model_ref. Qed.
